@@ -68,7 +68,7 @@ InvNestedDup ==
 Expect(ty) ==
   IF Msg_WF(ty, Item) THEN [accept |-> TRUE, val |-> <<Msg_ValueOf(ty, Item)>>, err |-> "", pinerr |-> FALSE,
                             judge |-> ~HasEmptyNested(ty, Item)]
-  ELSE [accept |-> FALSE, val |-> <<>>, err |-> Msg_FromCbor(ty, Item).err, pinerr |-> FALSE, judge |-> ~HasEmptyNested(ty, Item)]
+  ELSE [accept |-> FALSE, val |-> <<>>, err |-> Msg_FromCbor(ty, Item).err, diag |-> DiagOf(Msg_FromCbor(ty, Item)), text |-> ErrText(Msg_FromCbor(ty, Item)), pinerr |-> FALSE, judge |-> ~HasEmptyNested(ty, Item)]
 
 Strat2 == LET S == <<"w1", "w2", "w4", "w8", "indef", "indef2">> IN S[(Len(Enc(Item)) % 6) + 1]
 
